@@ -51,6 +51,8 @@ def instances(tier, seed):
         out.remove(i)
         for k, cls in enumerate(FIRST_CLASSES):
             out.append(dict(i, name='%s/first=%s' % (i['name'], cls[0]), first=k))
+    for i in out:
+        if i['n'] >= 3: i['_split'] = 5
     out.sort(key=lambda i: -i['n'])
     return out
 
@@ -262,7 +264,8 @@ def run_instance(prog, inst, tier, seed, deadline):
         out = native_outcome(inst, line)
         if out.get('outcome') in ('ok', 'skip'): return ('validated', 1)
         return ('mismatch', dict(line=line, symbolic='terminates', native=out))
-    return hsupport.run_paths(prog, body(inst), deadline, on_ok=on_ok, on_panic=on_panic, on_budget=on_budget, step_budget=600_000)
+    return hsupport.run_paths(prog, body(inst), deadline, on_ok=on_ok, on_panic=on_panic, on_budget=on_budget, step_budget=600_000,
+                             prefix=inst.get('_prefix'), split_depth=inst.get('_split'))
 
 def replay(v):
     inst = dict(stage='cmdline' if not v.get('stage') else v['stage'])
